@@ -555,8 +555,31 @@ def resolve_guess(cs, nc):
     return [0]
 
 
+def gen_owncols(rng, tier):
+    """the right-hand side of a table assignment made of the table's own live columns (permuted, repeated) or the table itself"""
+    import itertools as _it
+    for lay in (["int", "int"], ["int", "int", "int"], ["int", "float"], ["str", "str"], ["int", "str"]):
+        nc = len(lay)
+        for nr in (1, 2, 3):
+            # every column holds other values than its neighbours (a swap must show)
+            cols = [{"name": TNAMES[j], "vals": (COLTYPES[ct] * 3)[j:j + nr], "ct": ct} for j, ct in enumerate(lay)]
+            for rk in ({"k": "slice", "a": None, "b": None, "c": None}, {"k": "slice", "a": None, "b": None, "c": -1},
+                       {"k": "maskList", "bs": [True] * nr}):
+                for perm in _it.permutations(range(nc)):
+                    for colnames in (True, False):
+                        items = [TNAMES[j] for j in range(nc)] if colnames else list(range(nc))
+                        yield {"fam": "table", "cols": cols, "nr": nr, "key": {"row": rk, "col": {"c": "list", "items": items, "tuple": False}},
+                               "value": {"v": "owncols", "perm": list(perm), "tuple": perm[0] % 2 == 1}}
+                        yield {"fam": "table", "cols": cols, "nr": nr,
+                               "key": {"row": rk, "col": {"c": "list", "items": [items[j] for j in perm], "tuple": False}},
+                               "value": {"v": "ownself"}}
+                yield {"fam": "table", "cols": cols, "nr": nr, "key": {"row": rk, "col": {"c": "none"}},
+                       "value": {"v": "owncols", "perm": list(range(nc))[::-1]}}
+
+
 def gen_table(rng, tier):
     full = tier == "thorough"
+    yield from gen_owncols(rng, tier)
     layouts = [["int"], ["int", "str"], ["str", "int"], ["int", "float", "str"], ["float", "int"], ["int?", "bool"],
                ["date", "int"], ["obj", "int"], ["int", "int", "int"], ["bool", "float"]]
     reps = 3 if full else 1
@@ -984,6 +1007,18 @@ def exec_table(spec):
                     "nested": bool(obj) and isinstance(obj, (list, tuple)) and isinstance(obj[0], (list, tuple, Vector)), "ra": None}
         else:
             wval = {"v": "scalar", "c": ctx.cell(obj)}
+    elif f in ("owncols", "ownself"):
+        # the right-hand side is made of the table's OWN live columns (t[:, ['a', 'b']] = [t['b'], t['a']]) or is the table
+        # itself: like Python's list assignment, the values are what they were when the statement began
+        own = list(t.cols())
+        if f == "owncols":
+            objs = [own[j % len(own)] for j in tv["perm"]] if own else []
+            obj = list(objs) if not tv.get("tuple") else tuple(objs)
+            kind = "list"
+        else:
+            obj, objs, kind = t, own, "table"
+        wval = {"v": "iter", "kind": kind, "self": ctx.cell(obj), "items": [wire_item(ctx, x) for x in objs],
+                "nested": kind == "list" and bool(objs), "ra": None}
     else:
         objs = [build_titem(it) for it in tv["items"]]
         if f == "table":
